@@ -387,6 +387,174 @@ def end_index_accesses(ctx, mod):
     return out
 
 
+def _excludes_zero(M, fact, v):
+    """does the fact (op, a, b) exclude v == 0 ?"""
+    op, a, b = fact[0], fact[1], fact[2]
+    sv = M.strip(v)
+    for x, y, o in ((a, b, op), (b, a, {"ugt": "ult", "ult": "ugt", "uge": "ule", "ule": "uge", "sgt": "slt", "slt": "sgt", "sge": "sle", "sle": "sge"}.get(op, op))):
+        if M.strip(x) != sv:
+            continue
+        if is_const(y):
+            c = const_val(y)
+            if (o == "ne" and c == 0) or (o in ("ugt", "sgt") and c is not None and c >= 0) or (o in ("uge", "sge") and c is not None and c >= 1) or (o == "eq" and c not in (0, None)):
+                return True
+        elif o == "ugt":
+            return True                         # v >u anything
+    return False
+
+
+def divisor_nonzero(mod, fn, F, M, site, v, depth=0):
+    """a reason why v != 0 at the division `site`, or None"""
+    from ..lin import maxbits
+    if is_const(v):
+        return "constant %s" % const_val(v) if const_val(v) != 0 else None
+    for fc in F.at_inst(site):
+        if len(fc) >= 3 and _excludes_zero(M, fc, v):
+            return "under the fact %s" % describe_fact(fn, fc)
+    d = fn.defn(M.strip(v))
+    if d is None or d.is_param or depth > 4:
+        return None
+    w = mod.int_bits(d.ty) or 64
+    if d.op in ("zext", "sext"):
+        return divisor_nonzero(mod, fn, F, M, site, d.ops[0], depth + 1)
+    if d.op == "or" and any(is_const(x) and const_val(x) not in (0, None) for x in d.ops):
+        return "or with a non-zero constant"
+    if d.op == "add":
+        for a, b in ((d.ops[0], d.ops[1]), (d.ops[1], d.ops[0])):
+            if is_const(b) and const_val(b) is not None and 1 <= const_val(b) < (1 << (w - 1)):
+                k = maxbits(fn, a)
+                da = fn.defn(M.strip(a))
+                if k is None and da is not None and not da.is_param and da.op in ("udiv", "lshr") and is_const(da.ops[1]) and (const_val(da.ops[1]) or 0) >= (2 if da.op == "udiv" else 1):
+                    k = w - 1
+                if k is not None and k < w:
+                    return "%d + a value below 2^%d: the sum cannot wrap to 0" % (const_val(b), k)
+    if d.op in ("phi", "select"):
+        vals = [x for x, _ in d.incoming] if d.op == "phi" else d.ops[1:]
+        rs = [divisor_nonzero(mod, fn, F, M, site, x, depth + 1) for x in vals if x != ("v", d.id)]
+        return "every source: " + "; ".join(rs) if rs and all(rs) else None
+    if d.op == "load" and M.match(("load", ("field", "LHADecoderType", "block_size", ANY)), ("v", d.id), {}) is not None:
+        return _block_size_reason(mod)
+    return None
+
+
+_BS = {}
+
+
+def _block_size_reason(mod):
+    """dtype->block_size as a divisor: every decoder type has a constant block size; those with 0 (the MacBinary pass-through, which reports no
+    progress of its own) must never reach lha_decoder_monitor: their constructors' results go to fields that no monitor call reads"""
+    if id(mod) in _BS:
+        return _BS[id(mod)]
+    st = mod.types.get("%struct._LHADecoderType")
+    idx = next((k for k, fl in enumerate(st["fields"]) if fl.get("name") == "block_size"), None) if st else None
+    res = None
+    zero, n = [], 0
+    if idx is not None:
+        for name, g in mod.globals.items():
+            if g.get("ty") != "%struct._LHADecoderType" or "init" not in g:
+                continue
+            n += 1
+            if g["init"].get("k") == "zero":
+                zero.append(name)
+                continue
+            el = g["init"]["elems"][idx]
+            v = el.get("v")
+            if not (el.get("k") == "scalar" and v and v[0] == "ci"):
+                _BS[id(mod)] = None
+                return None
+            if v[1] == 0:
+                zero.append(name)
+        ok = n >= 10
+        # writers of block_size outside the initialisers?
+        if stores_to_field(mod, "LHADecoderType", "block_size"):
+            ok = False
+        if ok and zero:
+            ok = _zero_block_types_unmonitored(mod, zero)
+        if ok:
+            res = "block size of a decoder type: %d constant tables, non-zero in all but %s, whose decoders never reach lha_decoder_monitor" % (n, sorted(zero) or "none")
+    _BS[id(mod)] = res
+    return res
+
+
+def _refs_global(fn, names):
+    def has(o, depth=0):
+        if o is None or depth > 4:
+            return False
+        if o[0] == "gv":
+            return o[1] in names
+        if o[0] == "ce":
+            return any(has(x, depth + 1) for x in o[1].ops)
+        return False
+    return any(has(o) for i in fn.insts() for o in i.ops if isinstance(o, tuple))
+
+
+def _zero_block_types_unmonitored(mod, zero):
+    """field-based provenance: results of the functions that build a decoder of a zero-block type (they name its table) are stored only into fields
+    that no lha_decoder_monitor argument (and no progress_callback store) is loaded from"""
+    from ..ir import field_of_gep
+    def init_refs(x, depth=0):
+        if isinstance(x, dict):
+            return any(init_refs(v, depth + 1) for v in x.values())
+        if isinstance(x, (list, tuple)):
+            if len(x) == 2 and x[0] == "gv" and x[1] in zero:
+                return True
+            return any(init_refs(v, depth + 1) for v in x)
+        ops = getattr(x, "ops", None)
+        return bool(ops) and any(init_refs(v, depth + 1) for v in ops)
+    for name, g in mod.globals.items():
+        if name not in zero and "init" in g and init_refs(g["init"]):
+            return False                        # listed in a table (lha_decoder_for_name hands it to anyone, who may attach a monitor)
+    Z = {f.name for f in mod.defined() if _refs_global(f, set(zero))}
+    if not Z:
+        return True
+
+    def from_Z(fn, o, seen, depth=0):
+        """may operand o hold a decoder built by a Z function?"""
+        M = Matcher(fn)
+        o = M.strip(o)
+        d = fn.defn(o)
+        if o[0] == "null" or is_const(o):
+            return False
+        if d is None or depth > 5:
+            return True
+        if d.is_param:
+            return True                         # unknown provenance
+        if d.op == "call":
+            if d.callee in Z:
+                return True
+            callee = mod.functions.get(d.callee) if d.callee else None
+            if callee is None or callee.decl:
+                return d.callee is None         # an indirect call could return anything; a library function returns no decoder of ours
+            if callee.name in seen:
+                return False
+            seen = seen | {callee.name}
+            return any(r.ops and from_Z(callee, r.ops[0], seen, depth + 1) for r in rets(callee))
+        if d.op in ("phi", "select"):
+            vals = [x for x, _ in d.incoming] if d.op == "phi" else d.ops[1:]
+            return any(from_Z(fn, x, seen, depth + 1) for x in vals if x != ("v", d.id))
+        if d.op == "load":
+            pd = fn.defn(M.strip(d.ops[0]))
+            fld = field_of_gep(mod, pd) if pd is not None and not pd.is_param and pd.op == "getelementptr" else None
+            if fld is None:
+                return True
+            if fld in seen:
+                return False
+            seen = seen | {fld}
+            sts = stores_to_field(mod, fld[0], fld[1])
+            return any(from_Z(st.fn, st.ops[0], seen, depth + 1) for st in sts)
+        return True
+    for f in mod.defined():
+        if f.name in Z:
+            continue
+        for c in f.calls("lha_decoder_monitor"):
+            dd = f.defn(Matcher(f).strip(c.ops[0]))
+            if dd is not None and dd.is_param:
+                continue                        # a forwarding wrapper: its own callers are looked at when they call it
+            if from_Z(f, c.ops[0], frozenset()):
+                return False
+    return True
+
+
 def run(tier, seed):
     rep = Report("C08", tier, "other",
                  "Static memory-safety analysis outside the decompressors (claimed in part): the RANGE abstract interpreter with symbolic linear "
@@ -696,6 +864,30 @@ def run(tier, seed):
                       None if ok else ("the output has no static bound (a string conversion without precision, a floating conversion, a variable source)" if mx is None
                                        else "up to %d bytes plus NUL" % mx), function=f.cname, obj=nm)
         rep.extra["string_writers"] = dict(nsw)
+        # ---- R7 integer division ---------------------------------------------------------------------------------------
+        # An integer division or remainder by zero traps (SIGFPE): an abort the archive can cause if the divisor derives from it.
+        rid = rep.rule("R7", "every integer division / remainder has a divisor that cannot be zero: a non-zero constant, a value under a fact excluding 0, "
+                             "1 + (something that leaves room), or the block size of a decoder type that can be monitored (all non-zero in the tables)", 4)
+        ndiv = collections.Counter()
+        for f in mod.defined():
+            Fd = Md = None
+            for i in f.insts():
+                if i.op not in ("udiv", "sdiv", "urem", "srem"):
+                    continue
+                dv = i.ops[1]
+                if is_const(dv):
+                    ndiv["constant divisor"] += 1
+                    if const_val(dv) == 0:
+                        rep.violation(rid, "%s: division by the constant 0" % f.cname, i.where(), None, function=f.cname, obj="div-const0")
+                    continue
+                if Fd is None:
+                    Fd, Md = ctx.facts(f), Matcher(f)
+                why = divisor_nonzero(mod, f, Fd, Md, i, dv)
+                ndiv["variable divisor"] += 1
+                rep.check(rid, why is not None, "%s: divisor %s is never 0" % (f.cname, describe(f, dv)), i.where(),
+                          why or "no fact at the division excludes a zero divisor, and its derivation does not either: an archive value that makes it 0 stops the program with SIGFPE",
+                          function=f.cname, obj="div-%s" % describe(f, dv))
+        rep.extra["integer_divisions"] = dict(ndiv)
         rid = rep.rule("R5", "nullable header strings (path, filename, symlink_target, unix_username, unix_group) are used as strings only under a non-NULL fact", 25)
         LISTED = {
             ("is_macbinary_header", "filename"): "MacBinary detection runs for file members only (open_decoder requires a NORMAL entry that is decoded; C12.R5: a file entry always has a name)",
